@@ -215,7 +215,8 @@ def np_polygamma(m, x, out=None):
     This is changed because scipy.special.polygamma does not have 'out'.
     """
     if out is None:
-        out = np.copy(x)
+        # not np.copy(x): an integer or float32 x would truncate/round the result
+        return scipy.special.polygamma(m, x)
     out[...] = scipy.special.polygamma(m, x)
     return out
 
